@@ -48,9 +48,13 @@ PROPS: dict = {
             "proof_modules": ["BBProps.C04", "BBProofs.Chunking", "BBProofs.MemPages"]},
     "C05": {"suites": [multiround.suite_c05, gen.suite_gen({"subcluster", "ranges"})], "rule": RULE_MR + "; S-GEN ranges stream: multiround._get_files_range_tuples on real .npy files (0-105 files, row counts incl. 0) vs the generated loop", "proof_modules": ["BBProps.C05", "BBProofs.Multiround", "BBProofs.Names", "BBProofs.GenEq12", "BBProofs.GenEq6", "BBProofs.GenEq", "BBGen.Gen", "BBModel.PyNum"]},
     "C06": {"suites": [multiround.suite_c06, gen.suite_gen({"ranges"})], "rule": RULE_MR + "; S-GEN ranges stream: multiround._get_files_range_tuples on real .npy files (0-105 files, row counts incl. 0) vs the generated loop", "proof_modules": ["BBProps.C06", "BBProofs.Multiround", "BBProofs.Names", "BBProofs.GenEq12", "BBProofs.GenEq", "BBGen.Gen", "BBModel.PyNum"]},
-    "C07": {"suites": [props_tree.c07, legacy.suite_legacy], "rule": RULE_TREE + "; S-LEGACY: bblean vs _legacy.bb_uint8 vs "
+    "C07": {"suites": [props_tree.c07, legacy.suite_legacy, gen.suite_gen({"insert", "node"})],
+            "proof_modules": ["BBProps.C07", "BBProofs.RefPolicy", "BBProofs.GenEq13", "BBProofs.GenEq8", "BBProofs.GenEq3", "BBProofs.GenEq2", "BBProofs.GenEq", "BBGen.Gen", "BBModel.PyNum"],
+            "rule": RULE_TREE + RULE_GEN + "; insert stream: the real _BFNode.insert_bf_subcluster of ONE node of a real tree (root, inner, leaf, "
+            "fresh empty node), with np.argmax, merge_subcluster, the recursive call, _split_node and update recorded at depth 0, vs the "
+            "generated insertion step: flag, entry handles, cache tokens, call log; S-LEGACY: bblean vs _legacy.bb_uint8 vs "
             "_legacy.bb_int64 on 2048-bit inputs (radius, diameter, tolerance-legacy), non-trivial = case with a multi-member cluster"},
-    "C08": {"suites": [props_tree.c08, gen.suite_gen({"subcluster", "node"})], "rule": RULE_TREE + RULE_GEN + "; node stream: real _BFNode objects with "
+    "C08": {"suites": [props_tree.c08, gen.suite_gen({"subcluster", "node", "insert"})], "rule": RULE_TREE + RULE_GEN + "; node stream: real _BFNode objects with "
             "real sub-clusters (handles = identities, buffer rows = centroid tokens, garbage in the unused rows): append_subcluster, "
             "update_split_subclusters (also of an absent entry) and the packed_centroids view vs the generated functions"},
     "C09": {"suites": [props_tree.c09], "rule": RULE_TREE},
